@@ -55,7 +55,7 @@ fn par8_repeat_h<const N: usize>(cmax: u32) {
                 }
                 t += 1;
             }
-            assert!(got == p[r] && pw.probe_dc, "[C07] repeated pixel word latched (also on the strobe-only path)");
+            assert!(got == p[r] && pw.probe_dc, "[C07][C05] repeated pixel word latched (also on the strobe-only path): a solid fill puts the same words on the bus as a pixel stream");
         }
     }
     let mut same = true;
@@ -155,7 +155,7 @@ where
         let pw = unsafe { &*w };
         if r.is_ok() {
             any_ok = true;
-            assert!(pw.levels & mask == vs[i].into() & mask, "[C07][C12] after Ok the data pins show the value written, whatever pin failures came before");
+            assert!(pw.levels & mask == vs[i].into() & mask, "[C07][C12][C13][C17] after Ok the data pins show the value written, whatever pin failures or pin levels came before");
         } else {
             assert!(pw.failed, "[C07][C12] Err only when a pin failed");
         }
@@ -219,9 +219,9 @@ macro_rules! h {
         }
     };
 }
-//@ props=C07 inst="ParallelInterface<Generic8BitBus>: command + send_repeated_pixel, 2 words per pixel" bounds="0..=2 parameters, repeat count 0..=3 (symbolic pixel: strobe-only and general path); symbolic initial pin levels; symbolic strobe index" timeout=900 mem=8
+//@ props=C07,C05 inst="ParallelInterface<Generic8BitBus>: command + send_repeated_pixel, 2 words per pixel" bounds="0..=2 parameters, repeat count 0..=3 (symbolic pixel: strobe-only and general path); symbolic initial pin levels; symbolic strobe index" timeout=900 mem=8
 h!(c07_par8_repeat_n2, 8, par8_repeat_h::<2>(3));
-//@ props=C07 inst="ParallelInterface<Generic8BitBus>: command + send_repeated_pixel, 3 words per pixel" bounds="0..=2 parameters, repeat count 0..=1 (strobe-only and general path)" timeout=1200 mem=8
+//@ props=C07,C05 inst="ParallelInterface<Generic8BitBus>: command + send_repeated_pixel, 3 words per pixel" bounds="0..=2 parameters, repeat count 0..=1 (strobe-only and general path)" timeout=1200 mem=8
 h!(c07_par8_repeat_n3, 6, par8_repeat_h::<3>(1));
 //@ props=C07 tier=thorough inst="ParallelInterface<Generic8BitBus>: command + send_repeated_pixel, 3 words per pixel" bounds="0..=2 parameters, repeat count 0..=2" timeout=2400 mem=10
 h!(c07_par8_repeat_n3_2, 8, par8_repeat_h::<3>(2));
@@ -233,7 +233,7 @@ h!(c07_par8_stream_n3, 6, par8_stream_h::<3>());
 h!(c07_par8_repeat_n3_t, 14, par8_repeat_h::<3>(4));
 //@ props=C07 inst="ParallelInterface<Generic16BitBus>, 1 word per pixel" bounds="same" timeout=1200 mem=8
 h!(c07_par16, 6, par16_traffic_h());
-//@ props=C07,C12 inst="Generic8BitBus::set_value x 3" bounds="3 symbolic values from a symbolic initial pin state under an arbitrary 64-bit fault mask over pin operations (two calls cover every (state, transition) pair)" timeout=400 mem=4
+//@ props=C07,C12,C13,C17 inst="Generic8BitBus::set_value x 3" bounds="3 symbolic values from a symbolic initial pin state under an arbitrary 64-bit fault mask over pin operations (two calls cover every (state, transition) pair)" timeout=400 mem=4
 h!(c07_bus8_faults, 4, {
     let mut pw = ParWorld::new(kani::any(), true, 0);
     pw.fail_mask = kani::any();
